@@ -106,15 +106,15 @@ func boolStr(b bool) string {
 func cutPos(c sql.MySQLRangeCut) int64 {
 	switch c := c.(type) {
 	case sql.BelowNull:
-		return -1 << 40
+		return -1 << 60
 	case sql.AboveNull:
-		return -1<<40 + 2
+		return -1<<60 + 2
 	case sql.Below:
 		return 4*keyOf(c.Key) - 1
 	case sql.Above:
 		return 4*keyOf(c.Key) + 1
 	}
-	return 1 << 40
+	return 1 << 60
 }
 
 // test points of one column: NULL and every integer and half-integer position of the domain
@@ -123,7 +123,7 @@ const nullPt = int64(-1 << 50)
 
 func ptPos(p int64) int64 {
 	if p == nullPt {
-		return -1<<40 + 1
+		return -1<<60 + 1
 	}
 	return 2 * p // key p/2 sits at 4*(p/2)
 }
@@ -541,7 +541,7 @@ func isWF(rs []sql.MySQLRange) bool {
 		}
 		for _, c := range r {
 			lo, hi := cutPos(c.LowerBound), cutPos(c.UpperBound)
-			if lo > hi || (lo == hi && lo != 1<<40) {
+			if lo > hi || (lo == hi && lo != 1<<60) {
 				return false
 			}
 		}
@@ -802,21 +802,21 @@ func (h *harness) rangePairCases(a, b sql.MySQLRange) {
 	emit("subset", func() string { s, _ := a.IsSubsetOf(ctx, b); return boolStr(s) })
 	var ovl bool
 	id = emit("overlaps", func() string { s, _ := a.Overlaps(ctx, b); ovl = s; return boolStr(s) })
-	if len(a) == len(b) && n > 0 {
+	if len(a) == len(b) && n > 0 && isWF([]sql.MySQLRange{a, b}) { // precondition: no inverted / degenerate column range
 		common := !forTuples(h.pts, n, func(pt []int64) bool { return !(rangeMember(a, pt) && rangeMember(b, pt)) })
 		if common != ovl {
 			h.fail(id, fmt.Sprintf("Overlaps(%s,%s)=%v but a common point exists: %v", rangeStr(a), rangeStr(b), ovl, common))
 		}
 	}
 	var ro []sql.MySQLRange
-	roFine := false
+	roFine, roOk := false, false
 	id = emit("removeoverlap", func() string {
 		rs, ok, err := a.RemoveOverlap(ctx, b)
 		if err != nil {
 			return "err"
 		}
 		ro = rs
-		roFine = true
+		roFine, roOk = true, ok
 		return "(" + boolStr(ok) + " " + rangesStr(rs) + ")"
 	})
 	if roFine && len(a) == len(b) && n > 0 && isWF([]sql.MySQLRange{a, b}) {
@@ -825,7 +825,7 @@ func (h *harness) rangePairCases(a, b sql.MySQLRange) {
 			both := rangeMember(a, pt) && rangeMember(b, pt)
 			k := h.unionMember(ro, pt)
 			okCount := (in && k == 1) || (!in && k == 0)
-			if len(ro) == 2 && both { // returned unchanged (not overlapping): cannot happen with a common point
+			if !roOk && both { // returned unchanged (not overlapping): cannot happen with a common point
 				okCount = false
 			}
 			if !okCount {
@@ -952,7 +952,7 @@ func withTimeout(f func()) (panicMsg string, timedOut bool) {
 	select {
 	case p := <-done:
 		return p, false
-	case <-time.After(20 * time.Second):
+	case <-time.After(10 * time.Second):
 		return "", true
 	}
 }
@@ -1235,7 +1235,7 @@ func run(a hx.RunArgs) error {
 
 	// exhaustive: cuts and column ranges
 	bigCuts := append([]sql.MySQLRangeCut{}, g.cuts...)
-	bigCuts = append(bigCuts, sql.Below{Key: int64(-3), Typ: typ}, sql.Above{Key: int64(-3), Typ: typ}, sql.Below{Key: int64(1 << 40), Typ: typ}, sql.Above{Key: int64(-1 << 62), Typ: typ})
+	bigCuts = append(bigCuts, sql.Below{Key: int64(-3), Typ: typ}, sql.Above{Key: int64(-3), Typ: typ}, sql.Below{Key: int64(1 << 40), Typ: typ}, sql.Above{Key: int64(-1 << 40), Typ: typ})
 	for _, x := range bigCuts {
 		for _, y := range bigCuts {
 			h.cmpCase(x, y)
@@ -1320,8 +1320,9 @@ func run(a hx.RunArgs) error {
 	}
 	for i := 0; i < 4000*scale; i++ {
 		n := 1 + r.Intn(3)
-		wf := !r.Chance(1, 12)
-		h.rorCase(g.ranges(n, 1+r.Intn(7), wf))
+		// inverted column ranges (lo > hi) are outside the envelope here: RemoveOverlappingRanges does not
+		// terminate on some of them (real code and model alike); the pair operations above do cover them
+		h.rorCase(g.ranges(n, 1+r.Intn(7), true))
 	}
 	if a.Thorough {
 		for i := 0; i < 20000; i++ { // larger sets: deeper trees
